@@ -63,6 +63,12 @@ def _menu(ctx):
         ('write_preamble:bad-line_endings', 'write_preamble', ('x',), {'line_endings': 'mac'}, False),
         ('write_preamble:bad-mimetype', 'write_preamble', ('x',), {'mimetype': 'text/html'}, False),
         ('write_preamble:indent-str', 'write_preamble', ('x',), {'indent': '2'}, False),
+        ('write_preamble:empty-mimetype', 'write_preamble', ('x',), {'mimetype': ''}, False),
+        ('write_preamble:empty-line_endings', 'write_preamble', ('x',), {'line_endings': ''}, False),
+        ('write_meta:empty-format', 'write_meta', ({'a': 1},), {'meta_format': ''}, False),
+        ('write_meta:none-format', 'write_meta', ({'a': 1},), {'meta_format': None}, False),
+        ('write_diff:empty-type', 'write_diff', (b'x',), {'diff_type': ''}, False),
+        ('write_diff:empty-line_endings', 'write_diff', (b'x',), {'line_endings': ''}, False),
         ('write_preamble:unknown-codec', 'write_preamble', ('x',), {'encoding': 'no-such-codec'}, False),
         ('write_preamble:symbolic-encoding-name', 'write_preamble', ('x',), {'encoding': name1}, None),
         ('write_meta', 'write_meta', ({'a': 1},), {}, True),
@@ -148,12 +154,16 @@ def ob_step(ctx):
 def ob_init(ctx):
     """the constructor as a call: rejected constructions write nothing"""
     from pydiffx.writer import DiffXWriter
-    mode = ctx.pick('mode', ['ok', 'bad-version', 'symbolic-encoding-name'])
+    mode = ctx.pick('mode', ['ok', 'bad-version', 'empty-version', 'none-version', 'symbolic-encoding-name'])
     st = SymStream()
     kw = {}
     name = None
     if mode == 'bad-version':
         kw['version'] = '2.0'
+    elif mode == 'empty-version':
+        kw['version'] = ''
+    elif mode == 'none-version':
+        kw['version'] = None
     elif mode == 'symbolic-encoding-name':
         name = sym_str(ctx, 'enc', ctx.choose(1, 2, 'enc.len'), max_cp=0x2ff)
         kw['encoding'] = name
@@ -164,7 +174,7 @@ def ob_init(ctx):
     except Exception as e:
         raised = e
     if raised is None:
-        return verdict(ctx, [('accepted-invalid-arguments', mode != 'bad-version'), ('append-only', st.append_only())],
+        return verdict(ctx, [('accepted-invalid-arguments', not mode.endswith('-version')), ('append-only', st.append_only())],
                        witness=wit, sample=lambda m: dict(wit(m), outcome='accepted'))
     return verdict(ctx, [('rejected-call-wrote-bytes', len(st.log) == 0)], witness=wit,
                    sample=lambda m: dict(wit(m), outcome=type(raised).__name__))
@@ -317,7 +327,7 @@ def obligations(tier):
                       desc='one writer call (valid and invalid argument variants, symbolic text / codec-name characters) '
                            'from an arbitrary valid writer state: accepted <=> hierarchy allows; rejected => no stream '
                            'operation and state deep-equal; accepted => appends only, invariant re-established',
-                      bounds={'states': '9 ids x encoding chains over %s' % ENCS, 'call_variants': 26}))
+                      bounds={'states': '9 ids x encoding chains over %s' % ENCS, 'call_variants': 32}))
     else:
         obs.append(('skipped', 'step[arbitrary-state]', missing))
     obs.append(Ob('constructor', ob_init, {}, desc='constructor with valid / invalid version and symbolic encoding name',
@@ -329,14 +339,14 @@ def obligations(tier):
     obs.append(Ob('public-twin[states+1+%d]' % K2, ob_twin, dict(K1='states', K2=K2), must_reach=['DiffXWriter._validate_section'],
                   path_timeout=30,
                   desc='public API only: a canonical history reaching each of the 9 writer states (containers with / without '
-                       'an own encoding), one call out of the 26 valid/invalid variants (symbolic text and codec-name '
+                       'an own encoding), one call out of the 32 valid/invalid variants (symbolic text and codec-name '
                        'characters), %d more calls: rejected calls write nothing, acceptance follows the hierarchy, final '
                        'output == output of a twin writer given only the accepted calls' % K2,
-                  bounds={'states': 9, 'encoding_variants': 3, 'calls_after': K2, 'variants': 26}))
+                  bounds={'states': 9, 'encoding_variants': 3, 'calls_after': K2, 'variants': 32}))
     if not quick:
         obs.append(Ob('public-twin[3+1+2]', ob_twin, dict(K1=3, K2=2), must_reach=['DiffXWriter._validate_section'],
                       path_timeout=30, desc='as above with every 3-call prefix over the 7-call menu instead of the canonical histories',
-                      bounds={'calls_before': 3, 'calls_after': 2, 'variants': 26}))
+                      bounds={'calls_before': 3, 'calls_after': 2, 'variants': 32}))
     return obs
 
 
@@ -449,7 +459,7 @@ def replay(ob, label, w):
                 return {'violated': True, 'signature': 'atomic:rejected-call-wrote-bytes',
                         'detail': 'DiffXWriter(%r) raised %s after writing %r' % (w['kwargs'], type(e).__name__, st.getvalue())}
             return {'violated': False}
-        return {'violated': w['kwargs'].get('version') == '2.0', 'signature': 'order:accepted-invalid', 'detail': ''}
+        return {'violated': 'version' in w['kwargs'] and w['kwargs']['version'] != '1.0', 'signature': 'order:accepted-invalid', 'detail': repr(w['kwargs'])}
     # reach the pre-state through the public API
     s, chain = w['prev'], w['chain']
     st = io.BytesIO()
